@@ -15,18 +15,20 @@ PI = math.pi
 PROPS = [(4, 0, 0), (1, 0, 0), (2, 0, 0), (2, 1, 0), (3, 0, 2), (5, 0, 0)]
 
 
-def gen_line_world(rng):
-    sph = rng.random() < 0.4
+def gen_line_world(rng, force_style=None):
+    sph = rng.random() < 0.4 or force_style == 'long-shallow'
     ctx = wg.gen_ctx(rng, sph, exotic=False)
     if sph:
         ctx.depth_method = rng.choice(['starting point', 'begin segment', 'begin at end segment'])
     doc = {}
     wg.gen_globals(rng, ctx, doc, exotic=False, force_surface=False)
     ftype = rng.choice(['subducting plate', 'subducting plate', 'fault'])
+    if force_style:
+        ftype = 'subducting plate'
     where = None
     zero = False
     if sph:
-        mode = rng.random()
+        mode = rng.random() if not force_style else 0.99
         if mode < 0.3:
             where = (wg.R(rng.choice([-1, 1]) * rng.uniform(172, 180)), wg.R(rng.uniform(-50, 50)), wg.R(rng.uniform(3, 10)))
         elif mode < 0.55:
@@ -53,7 +55,9 @@ def gen_line_world(rng):
         f['dip point'] = dip
         t = dict(t, trench=[tuple(q) for q in tr], dip=tuple(dip))
     # make the bounds tight
-    style = rng.choice(['deep-start', 'shallow-dip', 'steep', 'negative-truncation', 'plain', 'short-thick', 'widening'])
+    style = rng.choice(['deep-start', 'shallow-dip', 'steep', 'negative-truncation', 'plain', 'short-thick', 'widening', 'long-shallow'])
+    if force_style:
+        style = force_style
     segs = f['segments']
     if style == 'deep-start':
         f['min depth'] = wg.num(rng, 1e5, 4e5)
@@ -68,6 +72,28 @@ def gen_line_world(rng):
         a = rng.uniform(80, 100)
         for s in segs:
             s['angle'] = [wg.R(a)]
+    elif style == 'long-shallow':
+        # a long slab at a shallow dip: its far end lies many degrees from the trench (the longitude buffer of a spherical box must
+        # cover it at the latitude of every part of the trace)
+        a = rng.uniform(8, 22)
+        total = rng.uniform(1.0e6, 2.0e6)
+        for s in segs:
+            s['angle'] = [wg.R(a)]
+            s['length'] = wg.R(total / len(segs))
+        f.pop('sections', None)
+        if sph and not zero and (force_style or rng.random() < 0.7):
+            # ... along a meridian over 15-30 degrees of latitude in one hemisphere, dipping east or west: the far end of the slab is
+            # 10-30 degrees of longitude away at the poleward end of the trace and much less at the equatorward end
+            hemi = rng.choice([-1, 1])
+            lat_a = hemi * (rng.uniform(25, 45) if force_style else rng.uniform(10, 40))
+            lat_b = hemi * min(78.0, abs(lat_a) + rng.uniform(15, 30))
+            lon0 = rng.uniform(-120, 120)
+            n = len(f['coordinates'])
+            tr = [[wg.R(lon0 + rng.uniform(-0.5, 0.5)), wg.R(lat_a + (lat_b - lat_a) * k / (n - 1.0))] for k in range(n)]
+            f['coordinates'] = tr
+            dip = [wg.R(lon0 + rng.choice([-1, 1]) * 40.0), wg.R(0.5 * (lat_a + lat_b))]
+            f['dip point'] = dip
+            t = dict(t, trench=[tuple(q) for q in tr], dip=tuple(dip))
     elif style == 'short-thick':
         # total length below the thickness: the thickness part of the buffer / cut-off is what keeps the body inside the bounds
         th = max(max(s['thickness']) for s in segs)
@@ -120,9 +146,12 @@ def gen_line_world(rng):
     box = (min(xs), min(ys), max(xs), max(ys), buf / unit)
     t2 = dict(t, trench=[tuple(p) for p in f['coordinates']], d0=d0, length=sum(s['length'] for s in segs), angle0=segs[0]['angle'][0], thickness=segs[0]['thickness'][0])
     pts = []
-    for _ in range(150):
+    dense_tip = 450 if (style == 'long-shallow' and sph) else 0
+    for ipt in range(150 + dense_tip):
         r = rng.random()
-        if r < (0.4 if style in ('negative-truncation', 'short-thick', 'widening') else 0.15):
+        if ipt >= 150:
+            r = 0.0          # the far, deep end of a long shallow spherical slab, densely: the part a too narrow longitude buffer loses first
+        if r < (0.4 if style in ('negative-truncation', 'short-thick', 'widening', 'long-shallow') else 0.15):
             # near the tip of the slab (its underside reaches furthest from the trench): straight-dip estimate in the local frame
             tr = t2['trench']
             k = rng.randrange(len(tr) - 1)
@@ -135,6 +164,8 @@ def gen_line_world(rng):
                 nx, ny = -nx, -ny
             th = math.radians(segs[0]['angle'][0])
             ss = rng.uniform(0.8, 1.02) * maxlen
+            if ipt >= 150:
+                ss = rng.uniform(0.55, 1.02) * maxlen
             nn = rng.uniform(-0.1, 1.05) * maxth * (0.5 if ftype == 'fault' else 1.0)
             if ftype == 'fault' and rng.random() < 0.5:
                 nn = -nn          # a fault extends to both sides of its plane
@@ -145,7 +176,8 @@ def gen_line_world(rng):
                 ss = rng.uniform(0.9, 1.0) * maxlen
             hh = ss * math.cos(th) - nn * math.sin(th)
             vv = ss * math.sin(th) + nn * math.cos(th)
-            p = (px + nx * hh / unit, py + ny * hh / unit, max(0.0, d0 + vv))
+            clat = max(0.05, math.cos(math.radians(py))) if sph else 1.0      # a degree of longitude is shorter away from the equator
+            p = (px + nx * hh / unit / clat, py + ny * hh / unit, max(0.0, d0 + vv))
         elif r < 0.45:
             p = wg.point_in_feature(rng, ctx, t2)
         elif r < 0.8:
@@ -252,13 +284,18 @@ def main(tier, seed, replay):
     V = core.Verdict(PID, tier, seed)
     V.coverage['rule'] = ('per file two worlds in one process: normal and built without shortcuts (hooks: slab/fault bounding box and depth cut-off removed, min/max pre-test of variable depth surfaces removed, '
                           'nearest-triangle search replaced by a full scan); same queries to both; bit equality of every value (1e-12 relative for depth-surface lookups on shared triangle edges); generators biased '
-                          'to tight bounds (deep starts, shallow and steep dips, negative truncations, bodies widening down dip, high latitudes, dateline) and to points around the buffered box and the cut-off depth; '
+                          'to tight bounds (deep starts, shallow and steep dips, negative truncations, bodies widening down dip, long shallow slabs along a meridian, high latitudes, dateline, traces written next to +-360) and to points around the buffered box and the cut-off depth; '
                           'non-trivial = points that the world without shortcuts reports inside the feature')
     n_line, n_area = (150, 80) if tier == 'quick' else (4500, 2400)
+    n_long = 12 if tier == 'quick' else 360
     jobs = []
-    for i in range(n_line + n_area):
+    for i in range(n_line + n_area + n_long):
         wrng = random.Random(rng.getrandbits(48))
-        doc, ctx, pts, meta = gen_line_world(wrng) if i < n_line else gen_area_world(wrng)
+        if i >= n_line + n_area:
+            # long shallow slabs along a meridian at mid to high latitudes (the longitude buffer of the box must fit every latitude of the trace)
+            doc, ctx, pts, meta = gen_line_world(wrng, force_style='long-shallow')
+        else:
+            doc, ctx, pts, meta = gen_line_world(wrng) if i < n_line else gen_area_world(wrng)
         fn = 'w%d.wb' % i
         c = core.Case('w%d' % i, files={fn: wg.dumps(doc)})
         world(c, 1, core.workfile(PID, fn), noshortcuts=0)
